@@ -236,7 +236,7 @@ MUTANTS += [
     {"name": "c04-halt-keeps-pidfile", "prop": "C04", "checks": ["C04"],
      "edits": [(AR, "        if self.pidfile is not None:\n            self.pidfile.unlink()\n        self.cfg.on_exit(self)", "        self.cfg.on_exit(self)")]},
     {"name": "c04-sockets-not-unlinked", "prop": "C04", "checks": ["C04"],
-     "edits": [(AR, "        sock.close_sockets(self.LISTENERS, unlink)", "        sock.close_sockets(self.LISTENERS, False)")]},
+     "edits": [(AR, "        sock.close_sockets(self.LISTENERS, unlink)\n\n        self.LISTENERS = []", "        sock.close_sockets(self.LISTENERS, False)\n\n        self.LISTENERS = []")]},
     {"name": "c04-gthread-does-not-wait-for-handlers", "prop": "C04", "checks": ["C04"],
      "edits": [(GT, "        deadline = time.time() + self.cfg.graceful_timeout\n        while self.futures:", "        os._exit(0)\n        deadline = time.time() + self.cfg.graceful_timeout\n        while self.futures:")]},
     {"name": "c04-no-kill-after-graceful-timeout", "prop": "C04", "checks": ["C04"],
